@@ -129,7 +129,16 @@ def check_bind(r) -> list[Fail]:
                     fails.append(Fail("wrong-environment", f"{when}: job.envars {dict(job.envars)}, driver {di} has {want['envars']}"))
 
         held = []
+        settings = [dict(s_) for s_ in settings]
         for k, (di, vec, hold) in enumerate(r["events"]):
+            if vec == "reconf":
+                # the driver instance is reconfigured in place by its owner: jobs taken from it afterwards reflect the new values
+                # (handles taken from this driver earlier are not judged: which values they should carry is not stated anywhere)
+                drv = get(di)
+                settings[di] = dict(executable=settings[(di + 1) % 3]["executable"], nprocs=settings[di]["nprocs"] + 10, envars=dict(settings[di]["envars"], RECONF=str(k)))
+                drv.executable, drv.nprocs, drv.envars = settings[di]["executable"], settings[di]["nprocs"], dict(settings[di]["envars"])
+                held = [h_ for h_ in held if h_[0] != di]
+                continue
             job = jobattr(get(di), vec)
             if hold:
                 held.append((di, vec, job, k))
@@ -149,12 +158,12 @@ def check_bind(r) -> list[Fail]:
 
 def classify_bind(r):
     ds = {e[0] for e in r["events"]}
-    return len(ds) >= 2, ["cls=" + r["cls"], f"drivers_used={len(ds)}", "has_held_handle" if any(e[2] for e in r["events"]) else "direct_only"]
+    return len(ds) >= 2, ["cls=" + r["cls"], f"drivers_used={len(ds)}", "has_held_handle" if any(e[2] for e in r["events"]) else "direct_only"] + (["driver_reconfigured_in_place"] if any(e[1] == "reconf" for e in r["events"]) else [])
 
 
 def enum_bind(tier, shard, nshards):
     L = 3 if tier == "quick" else 4
-    alpha = [[d, v, h] for d in range(3) for v in (False, True) for h in (False, True)]
+    alpha = [[d, v, h] for d in range(3) for v in (False, True) for h in (False, True)] + [[d, "reconf", False] for d in range(2)]
     i = 0
     for cls in ("harness", "xtb"):
         for n in range(1, L + 1):
